@@ -338,9 +338,13 @@ def run(res, tier, seed):
             svh_size_tables_tail_over_fractions=n_large, svh_rows_tail_over_fractions=n_large_rows,
             svh_validated_rows=validated_rows, svh_tables_with_validated_and_not=both,
             svh_tables_where_step_up_matters=stepup, svh_threshold_ties_skipped=skipped)
-    pick = max(range(len(cases)), key=lambda k: sum(1 for s in cases[k]["sizes"] for r in s["rows"] if r["fdr"]))
+    # smallest input with a validated and a non-validated hyperedge (else the last case)
+    pick = min(range(len(cases)), key=lambda k: (not (any(r["fdr"] for s in cases[k]["sizes"] for r in s["rows"])
+                                                       and any(not r["fdr"] for s in cases[k]["sizes"] for r in s["rows"])),
+                                                  len(descr[k]["hyperedges"]), -k))
     res.sample({"svh_input": descr[pick], "returned": {str(k): [[list(map(str, e)), p, f] for e, p, f in v]
-                                                       for k, v in raws[pick].items()}})
+                                                       for k, v in raws[pick].items()}},
+               cap=len(res.coverage["samples"]) + 1)      # the filter part already filled the default slots
     res.assume("get_svh: called with the default alpha (the code ignores alpha; the statement does not mention it); the level of one "
                "test is 0.01 / C(number of nodes spanned by the tested hyperedges of that size, size), step-up threshold",
                "get_svh p-values: in the exact regime (N^(size*N+1) < 2^31: size 2 N<=5, size 3 N<=4, sizes 4-6 N<=3) the returned "
